@@ -231,7 +231,7 @@ func c05CheckL(g *vG, dag bool, maxSteps int, maxCalls int, candidates []string,
 		a6(len(mon.pendingAft) == 0, "every interrupt-after node that completed is reported by the interrupt ("+desc+")")
 	}
 	a6(mon.bad == "", ""+mon.bad+" ("+desc+")")
-	a5(finished, "the run completes after resuming at most "+string(rune('0'+maxCalls))+" times ("+desc+")")
+	a5(finished, "the run completes after resuming at most "+fmt.Sprintf("%d", maxCalls)+" times ("+desc+")")
 	a5(vMapEq(out, wantOut), "interrupted and resumed run returns the output of the uninterrupted run ("+desc+")")
 	for _, n := range g.nodes {
 		a, b := logI.of(n), logU.of(n)
@@ -972,3 +972,25 @@ func VerifC05LanesPregel() { c05Lanes(false) }
 func VerifC05LanesDAG()    { c05Lanes(true) }
 func VerifC06LanesPregel() { c05Mode = 6; c05Lanes(false) }
 func VerifC06LanesDAG()    { c05Mode = 6; c05Lanes(true) }
+
+// thorough tier: a six-node shape with fan-in, a two-way branch, a skip path and a late join; every node may be an
+// interrupt-before or interrupt-after point (3^6 configurations), every call chooses its paradigm
+func c05Big() *vG {
+	return &vG{nodes: []string{"a", "b", "c", "d", "e", "f"},
+		edges:    [][2]string{{START, "a"}, {START, "b"}, {"a", "c"}, {"b", "c"}, {"d", "f"}, {"e", "f"}, {"f", END}},
+		branches: []vBranch{{"c", []string{"d", "e"}}}}
+}
+
+func VerifC05BigPregel() { c05Check(c05Big(), false, 0, 9, []string{"a", "b", "c", "d", "e", "f"}) }
+func VerifC05BigDAG()    { c05Check(c05Big(), true, 0, 9, []string{"a", "b", "c", "d", "e", "f"}) }
+func VerifC06BigPregel() { c05Mode = 6; c05Check(c05Big(), false, 0, 9, []string{"a", "b", "c", "d", "e", "f"}) }
+func VerifC06BigDAG()    { c05Mode = 6; c05Check(c05Big(), true, 0, 9, []string{"a", "b", "c", "d", "e", "f"}) }
+
+// thorough tier: a cycle with a fan inside (a -> {b, c} -> d -> branch back to a | END), up to three rounds
+func c05CycleFan() *vG {
+	return &vG{nodes: []string{"a", "b", "c", "d"}, edges: [][2]string{{START, "a"}, {"a", "b"}, {"a", "c"}, {"b", "d"}, {"c", "d"}},
+		branches: []vBranch{{"d", []string{"a", END}}}}
+}
+
+func VerifC05CycleFan() { c05CheckL(c05CycleFan(), false, 14, 11, []string{"a", "b", "d"}, 2) }
+func VerifC06CycleFan() { c05Mode = 6; c05CheckL(c05CycleFan(), false, 14, 11, []string{"a", "b", "d"}, 2) }
